@@ -236,6 +236,30 @@ def switchLateCStmt (st : St) (x s base op : String) : St × String :=
       st.addDef x (.hold (i + 7) 0) .c
   | _, _, _ => (st, "skip")
 
+/-- `s.once().listen(|k| { base.or_else(&never).map(f2 op · k).listen(log l) })` — FRP built inside a listener handler,
+    during propagation: from the transaction of the first event `k` of `s` on — that very transaction included — every
+    event `v` of `base` is reported to `l` as `f2 op v k`.  In S: a listener on the stream that fires `f2 op v k` when
+    `base` and the first event of `s` coincide, and afterwards the snapshot of `base` with the held `k`. -/
+def lateListenStmt (st : St) (l s base op : String) : St × String :=
+  if !st.fresh l then (st, "skip") else
+  match st.stream s, st.stream base, num op with
+  | some s, some b, some op =>
+    st.inTxn fun st =>
+      let i := st.sp.defs.size
+      let st := st.addDef (l ++ "#o") (.once s) .s                  -- i     the first event of s
+      let st := st.addDef (l ++ "#k") (.hold i 0) .c                -- i+1   k, afterwards
+      let st := st.addDef (l ++ "#m") (.mapto i 2) .s               -- i+2
+      let st := st.addDef (l ++ "#f") (.hold (i + 2) 1) .c          -- i+3   even once it happened
+      let st := st.addDef (l ++ "#s") (.snapshot b (i + 1) op) .s   -- i+4
+      let st := st.addDef (l ++ "#g") (.gate (i + 4) (i + 3)) .s    -- i+5   later transactions
+      let st := st.addDef (l ++ "#b") (.merge b i op) .s            -- i+6
+      let st := st.addDef (l ++ "#w") (.when (i + 6) i) .s          -- i+7   … when s fires its first event
+      let st := st.addDef (l ++ "#v") (.when (i + 7) b) .s          -- i+8   … and base fires too: the same transaction
+      let st := st.addDef (l ++ "#e") (.orelse (i + 8) (i + 5)) .s  -- i+9
+      let st := { st with lis := st.lis.push { name := l, target := i + 9, isCell := false, regTxn := st.sp.txn, weak := false } }
+      st.bind l .post
+  | _, _, _ => (st, "skip")
+
 /-- one statement (not `begin`/`end`) -/
 def stmt (st : St) (ws : List String) : St × String :=
   match ws with
@@ -298,6 +322,17 @@ def stmt (st : St) (ws : List String) : St × String :=
   | ["snaplazy", x, s, c] =>
     -- `s.map(|_| c.sample_lazy()).map(|l| l.run())`: the Lazy denotes the value of `c` in this transaction
     defStmt st x (do pure (.snapshot1 (← st.stream s) (← st.cell c))) .s
+  | ["snapmapc", x, s, c, k] =>
+    -- `s.map(|_| c.map(f1 k).sample())`: a mapped cell built and sampled inside a propagation callback equals
+    -- `f1 k` of the value `c` has in this transaction
+    if !st.fresh x then (st, "skip") else
+    (match st.stream s, st.cell c, num k with
+     | some s, some c, some k =>
+       st.inTxn fun st =>
+         let i := st.sp.defs.size
+         let st := st.addDef (x ++ "#1") (.snapshot1 s c) .s
+         st.addDef x (.map i k) .s
+     | _, _, _ => (st, "skip"))
   | ["postsend", p, s, v] =>
     -- `ctx.post(move || sink.send(v))`: a transaction of its own after the current one (at once when none is open)
     if !st.fresh p then (st, "skip") else
@@ -309,6 +344,7 @@ def stmt (st : St) (ws : List String) : St × String :=
          else closeTxn { st with posts := st.posts ++ [.ev i v] }
        else (st, "skip")
      | _, _ => (st, "skip"))
+  | ["latelisten", l, s, base, op] => lateListenStmt st l s base op
   | ["switchlate", x, s, base, op] => switchLateStmt st x s base op
   | ["switchlatec", x, s, base, op] => switchLateCStmt st x s base op
   | "switchc" :: x :: sel :: cands =>
